@@ -173,10 +173,19 @@ pub fn check(r: &Runner, ctx: &mut Ctx, l: &mut Local, rec: &CaseRec) -> Result<
     let _ = std::fs::remove_file(&tmp);
     match (da, db) {
         (Ok(a), Ok(b)) => {
+            for (v, d) in [(va, &a), (vb, &b)] {
+                if d.iter().any(|x| *x != d[0]) {
+                    return Err(Violation::new(
+                        format!("C13/placement-dependent/{}", v.name),
+                        format!("variant {} gives different results for the same bytes at different placements (+0/+1/+19/page-straddle: {:x?}) for {} on {:?}", v.name, d, rec.entry.name(), show_bytes(&rec.buf, 120)),
+                        rec,
+                    ));
+                }
+            }
             if a != b {
                 return Err(Violation::new(
                     format!("C13/variant-mismatch/{}-vs-{}", va.name, vb.name),
-                    format!("build variants {} (cell {:?}) and {} (cell {:?}) give different results for {} on {:?} (alignments 0/1/19: {:x?} vs {:x?})",
+                    format!("build variants {} (cell {:?}) and {} (cell {:?}) give different results for {} on {:?} (placements +0/+1/+19/page-straddle: {:x?} vs {:x?})",
                         va.name, cell(rec.aux[0]), vb.name, cell(rec.aux[1]), rec.entry.name(), show_bytes(&rec.buf, 120), a, b),
                     rec,
                 ));
@@ -191,6 +200,9 @@ pub fn check(r: &Runner, ctx: &mut Ctx, l: &mut Local, rec: &CaseRec) -> Result<
         )),
     }
 }
+
+/// placements per corpus case printed by vdigest
+const NP: usize = 4;
 
 fn vector_path(buf: &[u8]) -> bool {
     let mut run = 0;
@@ -523,30 +535,42 @@ pub fn run(r: &Runner) {
             return;
         }
     };
-    if reference.len() != cases.len() * 3 {
+    if reference.len() != cases.len() * NP {
         r.inconclusive.lock().unwrap().push(format!("reference variant printed {} digests for {} cases", reference.len(), cases.len()));
         return;
     }
     let (rv, _, rcell, _) = &runs[0];
+    // "for any buffer alignment": within the reference variant the placements of one case must agree
+    if let Some(k) = (0..cases.len()).find(|&k| (1..NP).any(|j| reference[k * NP + j] != reference[k * NP])) {
+        let mut rec = cases[k].clone();
+        rec.sub = std::borrow::Cow::Borrowed("variant-pair");
+        rec.bufs = vec![rv.name.as_bytes().to_vec(), rv.name.as_bytes().to_vec()];
+        rec.aux = vec![rcell.map(|c| c as u64 + 1).unwrap_or(0), rcell.map(|c| c as u64 + 1).unwrap_or(0)];
+        r.report(Violation::new(
+            format!("C13/placement-dependent/{}", rv.name),
+            format!("case {}: variant {} gives different results for the same bytes at different placements (+0/+1/+19/page-straddle: {:x?}) for {} on {:?}", k, rv.name, &reference[k * NP..k * NP + NP], rec.entry.name(), show_bytes(&rec.buf, 120)),
+            &rec,
+        ));
+    }
     let mut compared = 0u64;
     for (i, res) in &outputs[1..] {
         let (v, _, cell, sub) = &runs[*i];
         match res {
             Ok(d) => {
-                let n = if *sub { sub_n * 3 } else { reference.len() };
+                let n = if *sub { sub_n * NP } else { reference.len() };
                 if d.len() != n {
                     r.inconclusive.lock().unwrap().push(format!("variant {} printed {} digests, expected {}", v.name, d.len(), n));
                     continue;
                 }
                 compared += n as u64;
                 if let Some(k) = (0..n).find(|&k| d[k] != reference[k]) {
-                    let mut rec = cases[k / 3].clone();
+                    let mut rec = cases[k / NP].clone();
                     rec.sub = std::borrow::Cow::Borrowed("variant-pair");
                     rec.bufs = vec![rv.name.as_bytes().to_vec(), v.name.as_bytes().to_vec()];
                     rec.aux = vec![rcell.map(|c| c as u64 + 1).unwrap_or(0), cell.map(|c| c as u64 + 1).unwrap_or(0)];
                     r.report(Violation::new(
                         format!("C13/variant-mismatch/{}-vs-{}", rv.name, v.name),
-                        format!("case {} (alignment index {}): variant {} (cell {:?}) differs from {} for {} on {:?}", k / 3, k % 3, v.name, cell, rv.name, rec.entry.name(), show_bytes(&rec.buf, 120)),
+                        format!("case {} (alignment index {}): variant {} (cell {:?}) differs from {} for {} on {:?}", k / NP, k % NP, v.name, cell, rv.name, rec.entry.name(), show_bytes(&rec.buf, 120)),
                         &rec,
                     ));
                 }
@@ -562,7 +586,7 @@ pub fn run(r: &Runner) {
     let mut l = Local { counting: true, sample_budget: 6, ..Local::default() };
     for c in &cases {
         let nt = vector_path(&c.buf);
-        r.account(&mut l, c, nt, "corpus case, parsed by every variant at 3 alignments");
+        r.account(&mut l, c, nt, "corpus case, parsed by every variant at 4 placements (64-aligned +0/+1/+19, and straddling a 4 KiB page boundary)");
     }
     l.evals = 0;
     r.stats.evals.fetch_add(compared + reference.len() as u64, Ordering::Relaxed);
@@ -578,7 +602,7 @@ pub fn run(r: &Runner) {
         h.insert("digests compared".into(), compared);
     }
     r.note(format!("variants run: {:?}", runs.iter().map(|(v, _, c, s)| format!("{}{}{}", v.name, c.map(|c| format!(":cell{}", c)).unwrap_or_default(), if *s { ":sub" } else { "" })).collect::<Vec<_>>()));
-    r.phase_done("shared corpus parsed by every build variant at 3 alignments; per-case result hashes compared with the reference variant", cases.len() as u64 * runs.len() as u64 * 3, false, t0);
+    r.phase_done("shared corpus parsed by every build variant at 4 placements (64-aligned +0/+1/+19, and straddling a 4 KiB page boundary); per-case result hashes compared with the reference variant", cases.len() as u64 * runs.len() as u64 * NP as u64, false, t0);
     // fresh-process cold-start races
     let t0 = std::time::Instant::now();
     if let Some((_, hooks_bin)) = built.iter().find(|(v, _)| v.name == "runtime") {
